@@ -44,6 +44,13 @@ func runC02(s *kernel.Sim) {
 	withParent := tp.Chance(1, 3)
 	maxP := int64(tp.Range(1, 3))
 	withEarlyFlow := tp.Chance(1, 3)
+	// a second, never exhausted quota (a rate limit) on the same URL: 0 none,
+	// 1 only defined (its system flow still counts every request), 2 checked by a
+	// Limiter before the concurrency limit, 3 checked after it
+	withRate := 0
+	if tp.Chance(1, 3) {
+		withRate = 1 + tp.Choose(3)
+	}
 	nGroups := tp.Range(3, 12)
 	concP := tp.Choose(4)
 	siteOn, density := lockSites(tp)
@@ -51,6 +58,7 @@ func runC02(s *kernel.Sim) {
 	G := time.Duration(gcS) * time.Second
 	s.Knobs["max"], s.Knobs["exp_s"], s.Knobs["gc_s"] = maxC, expS, gcS
 	s.Knobs["parent_max"], s.Knobs["early_flow"], s.Knobs["lock_sites"] = map[bool]int64{true: maxP, false: 0}[withParent], withEarlyFlow, density
+	s.Knobs["rate_quota"] = []string{"none", "defined", "limiter-first", "limiter-second"}[withRate]
 
 	live := &fakeLiveness{}
 	ctx, cancel := context.WithCancel(context.Background())
@@ -67,18 +75,52 @@ func runC02(s *kernel.Sim) {
 			url, max, expS, gcS)
 	}
 	files := map[string]string{}
+	rate := func() {
+		if withRate > 0 { // one quota file per host
+			q.WriteString("  - id: qr\n    filter:\n      url: a.com/c\n    strategy:\n      fixed_window:\n        max: 100000\n        interval: 1\n        interval_unit: minute\n")
+		}
+	}
 	if withParent {
 		q.WriteString("quotas:\n")
 		conc("qp", "a.com/p", maxP, "")
+		rate()
 		q.WriteString("internal_limits:\n")
 		conc("qc", "a.com/c", maxC, "qp")
 		files["flows/fp.yaml"] = limiterFlow("fp", "a.com/p", "qp").YAML()
 	} else {
 		q.WriteString("quotas:\n")
+		if withRate == 2 {
+			rate() // declared before the concurrency quota
+		}
 		conc("qc", "a.com/c", maxC, "")
+		if withRate != 2 {
+			rate()
+		}
 	}
 	files["quotas/quota.yaml"] = q.String()
 	files["flows/fc.yaml"] = limiterFlow("fc", "a.com/c", "qc").YAML()
+	if withRate >= 2 {
+		first, second := "qr", "qc"
+		if withRate == 3 {
+			first, second = "qc", "qr"
+		}
+		files["flows/fc.yaml"] = flowDef{
+			Name: "fc", URL: "a.com/c",
+			Procs: []procDef{
+				{Key: "lim1", Type: "Limiter", Params: [][2]string{{"quota_id", first}}},
+				{Key: "lim2", Type: "Limiter", Params: [][2]string{{"quota_id", second}}},
+				{Key: "gen", Type: "GenerateResponse", Params: [][2]string{{"status", "429"}, {"body", "limited"}}},
+			},
+			Req: []connDef{
+				{FromStream: "start", ToProc: "lim1"},
+				{FromProc: "lim1", Cond: "below_limit", ToProc: "lim2"},
+				{FromProc: "lim1", Cond: "above_limit", ToProc: "gen"},
+				{FromProc: "lim2", Cond: "below_limit", ToStream: "end"},
+				{FromProc: "lim2", Cond: "above_limit", ToProc: "gen"},
+			},
+			Resp: []connDef{{FromProc: "gen", ToStream: "end"}},
+		}.YAML()
+	}
 	if withEarlyFlow {
 		files["flows/fe.yaml"] = flowDef{
 			Name: "fe", URL: "a.com/c",
